@@ -37,6 +37,9 @@ def check(ctx, M, what, r, expect, before):
         ctx.violation('C04:rejected', f'{what} rejected valid arguments', M.case())
         return
     got = M.tt(r)
+    if got == -1:
+        ctx.violation('C04:wrong-function', f'{what}: the returned reference {r} is not a node of the manager', M.case())
+        return
     if got != expect:
         ctx.violation('C04:wrong-function', f'{what}: got {got:#x}, expected {expect:#x}', M.case())
     u, t = before
@@ -129,18 +132,28 @@ def stream_compose1(ctx, n, order, tts, ng, aged):
         if u0 is None:
             continue
         M.op('incref', u0)
-        for sign in (1, -1):
-            u = sign * u0
-            tu = t if sign == 1 else T.neg(t, n)
-            for j in range(n):
-                for g, tg in pool:
-                    gs = rng.choice((1, -1))
-                    tgs = tg if gs == 1 else T.neg(tg, n)
-                    r = M.op('let_ref', {j: gs * g}, u)
-                    check(ctx, M, f'let(compose [{j}])', r, T.vector_compose(tu, n, {j: tgs}), (u, tu))
-                    ctx.case((n, order, aged, 'compose1', t, sign, j, tgs),
-                             T.depends(t, n, j) and tgs not in (0, full))
-                    ctx.count('let-compose1')
+        # two rounds over the same (operand, replacement) pairs, separated by a swap of
+        # adjacent levels or a collection: nothing may be remembered across the calls
+        for rnd in (0, 1):
+            for sign in (1, -1):
+                u = sign * u0
+                tu = t if sign == 1 else T.neg(t, n)
+                for j in range(n):
+                    for g, tg in pool:
+                        gs = rng.choice((1, -1)) if rnd == 0 else 1
+                        tgs = tg if gs == 1 else T.neg(tg, n)
+                        r = M.op('let_ref', {j: gs * g}, u)
+                        check(ctx, M, f'let(compose [{j}])', r, T.vector_compose(tu, n, {j: tgs}), (u, tu))
+                        ctx.case((n, order, aged, 'compose1', t, sign, j, tgs, rnd),
+                                 T.depends(t, n, j) and tgs not in (0, full))
+                        ctx.count('let-compose1')
+            if rnd == 0:
+                if rng.random() < 0.7 and n >= 2:
+                    x = rng.randrange(n - 1)
+                    M.op('swap', x, x + 1)
+                else:
+                    M.op('gc', None)
+                    M.build(rng.getrandbits(1 << n))
         M.op('decref', u0)
     M.check_table('C04:table')
     ctx.sample(dict(stream=M.s.label, first_lines=M.s.lines[:8]))
@@ -150,10 +163,10 @@ def run(ctx):
     q = ctx.quick
     rng = ctx.rng
     for order in (rng.sample(gen.orders(3), 2) if q else gen.orders(3)):
-        stream_compose1(ctx, 3, order, sorted(rng.sample(range(256), 40)) if q else range(256),
+        stream_compose1(ctx, 3, order, sorted(rng.sample(range(256), 20)) if q else range(256),
                         6, rng.random() < 0.5)
     for order in rng.sample(gen.orders(4), 2 if q else 8):
-        stream_compose1(ctx, 4, order, [rng.getrandbits(16) for _ in range(8 if q else 60)],
+        stream_compose1(ctx, 4, order, [rng.getrandbits(16) for _ in range(4 if q else 40)],
                         6, rng.random() < 0.5)
     for order in gen.orders(3):
         for aged in (False, True):
